@@ -57,7 +57,14 @@ func (m *methods) Define(cmd, dataType string) {
 
 // Degroup takes the commands assigned to group types and sorts them back into individual types
 func (m *methods) Degroup() error {
+	m.mutex.Lock()
+	groupNames := make([]string, 0, len(m.dt))
 	for group := range m.dt {
+		groupNames = append(groupNames, group)
+	}
+	m.mutex.Unlock()
+
+	for _, group := range groupNames {
 		if group[0] == '@' && group != types.Any {
 			gs, err := groups(group)
 			if err != nil {
